@@ -45,16 +45,18 @@ Allow(p, n) == [p EXCEPT !.allow = n]
 Sg(t, as) == [t |-> t, as |-> as]
 
 (* next-hop forms: 1 classic IPv4; 2 IPv6 in MP_REACH; 3 IPv4 prefix with IPv6 next hop in MP_REACH
-   (RFC 8950); 4, 5 unspecified next hop of a route originated here *)
+   (RFC 8950); 4, 5 unspecified next hop of a route originated here; 6 IPv6 with a 32-octet next hop
+   (global + link-local address of the sending neighbour, RFC 2545 3), received routes only *)
 NhForm(k) ==
-  CASE k = 1 -> [fam |-> "v4", nha |-> "192.0.2.1", nhm |-> "none"]
-    [] k = 2 -> [fam |-> "v6", nha |-> "none",      nhm |-> "2001:db8::1"]
-    [] k = 3 -> [fam |-> "v4", nha |-> "none",      nhm |-> "2001:db8::1"]
-    [] k = 4 -> [fam |-> "v4", nha |-> "0.0.0.0",   nhm |-> "none"]
-    [] k = 5 -> [fam |-> "v6", nha |-> "none",      nhm |-> "::"]
+  CASE k = 1 -> [fam |-> "v4", nha |-> "192.0.2.1", nhm |-> "none", nhl |-> "none"]
+    [] k = 2 -> [fam |-> "v6", nha |-> "none",      nhm |-> "2001:db8::1", nhl |-> "none"]
+    [] k = 3 -> [fam |-> "v4", nha |-> "none",      nhm |-> "2001:db8::1", nhl |-> "none"]
+    [] k = 4 -> [fam |-> "v4", nha |-> "0.0.0.0",   nhm |-> "none", nhl |-> "none"]
+    [] k = 5 -> [fam |-> "v6", nha |-> "none",      nhm |-> "::", nhl |-> "none"]
+    [] k = 6 -> [fam |-> "v6", nha |-> "none",      nhm |-> "2001:db8::1", nhl |-> "fe80::1"]
 
 Route(src, nh, asattr, aspath, origin, lp, med, origid, clist, unk, comm) ==
-  [src |-> src, fam |-> nh.fam, nha |-> nh.nha, nhm |-> nh.nhm, asattr |-> asattr, aspath |-> aspath,
+  [src |-> src, fam |-> nh.fam, nha |-> nh.nha, nhm |-> nh.nhm, nhl |-> nh.nhl, asattr |-> asattr, aspath |-> aspath,
    origin |-> origin, lp |-> lp, med |-> med, origid |-> origid, clist |-> clist, unk |-> unk,
    comm |-> comm]
 
